@@ -238,9 +238,9 @@ func main() {
 		inputs = append(inputs, h)
 	} else {
 		inputs = append(inputs, corpus()...)
-		n := o.Count(260, 20000)
+		n := o.Count(260, 6000)
 		if o.Search {
-			n = o.Count(1500, 20000)
+			n = o.Count(1500, 6000)
 		}
 		for i := 0; i < n; i++ {
 			sh, steps := cfgsm.Gen(rng, o.Search)
